@@ -232,6 +232,42 @@ func runC04E2eTEFromTarget(c *fw.Ctx, id, proto string) {
 	c.Count("e2e_samples_checked", len(out.E2eProbe.RTTs))
 }
 
+func runC05RealtimeSlowSend(c *fw.Ctx, id string, v refmatch.Variant) {
+	spec := defaultSpec(v, 90+c.Worker, 1, 4)
+	spec.Timeout, spec.Delay, spec.Poll, spec.HandshakeTimeout = 600*time.Millisecond, 20*time.Millisecond, 50*time.Millisecond, 500*time.Millisecond
+	if v.Proto == "sack" {
+		spec.Port = uint16(26000 + c.Worker)
+	}
+	e, err := newSimEnv(c, spec, 0x10000000)
+	if err != nil {
+		c.Inconclusive(err.Error())
+		return
+	}
+	defer e.close()
+	// the 2nd probe's write returns 400 ms after the packet left
+	e.w.Faults[simnet.FaultKey{Handle: -1, Op: "write", K: 2}] = simnet.Fault{StallAfter: 400 * time.Millisecond}
+	m := &pathModel{hops: map[int]*hopSpec{}}
+	for t := 1; t <= 4; t++ {
+		m.hops[t] = &hopSpec{addr: routerAddr(v.V6, 1, t), delay: 30 * time.Millisecond}
+	}
+	res := e.run(m)
+	if res.Err != nil || res.Run == nil || len(res.Run.Hops) == 0 {
+		c.Inconclusive(fmt.Sprintf("%s: run failed: %v", id, res.Err))
+		return
+	}
+	h := res.Run.Hops[0]
+	c.Count("realtime_slow_send_rtt_ms", int(h.RTT))
+	c.Sample(map[string]any{"case": id, "hop1_rtt_ms": h.RTT, "reply_delay_ms": 30, "send_stall_ms": 400})
+	if len(h.IPAddress) == 0 {
+		c.Inconclusive(id + ": hop 1 empty")
+		return
+	}
+	c.Nontrivial("realtime-slow-send/" + v.Name)
+	if h.RTT > 230 {
+		c.Violate("C05", "rtt-waits-for-sender/"+v.Name, fmt.Sprintf("%s: the reply to probe 1 arrived 30 ms after the probe while the send of probe 2 was blocked for 400 ms; reported RTT %.1f ms (real clock; tolerance: one poll interval of 50 ms + 150 ms slack)", id, h.RTT), fmtRun(res))
+	}
+}
+
 // simplePathWin: routers at every TTL of the window below dist, destination at dist (if reach).
 func simplePathWin(v refmatch.Variant, w window, dist int, reach bool, base time.Duration) *pathModel {
 	m := &pathModel{hops: map[int]*hopSpec{}}
@@ -349,6 +385,16 @@ func checkC05() fw.Check {
 				rq := c15Req{proto: "udp", q: 1, e: 3, fetcher: "none", reach: true, cancelAt: -1, firewall: fwTTL}
 				id := fmt.Sprintf("C05/e2e-firewall/ttl%d", fwTTL)
 				cases = append(cases, fw.Case{ID: id, Bubble: true, Run: func(c *fw.Ctx) { runC15Case(c, id, rq); c.Nontrivial(fmt.Sprintf("e2e-firewall/%d", rq.firewall)) }})
+			}
+			// real clock: a send that blocks in the kernel for 400 ms while the reply to the previous probe arrives. On
+			// the virtual clock a receiver that has to wait for the sender (e.g. on a lock held across the write) cannot
+			// be timed - the bubble stalls instead (the case watchdog then ends the run as inconclusive); here it shows
+			// up as an RTT of ~400 ms for a reply that arrived after 30 ms. Threshold 230 ms (30 + one poll of 50 + 150
+			// ms of scheduling slack on a loaded machine).
+			for _, vn := range []string{"icmp4", "udp4", "sackR"} {
+				vn := vn
+				id := "C05/realtime-slow-send/" + vn
+				cases = append(cases, fw.Case{ID: id, Run: func(c *fw.Ctx) { runC05RealtimeSlowSend(c, id, refmatch.VariantByName(vn)) }})
 			}
 			for _, v := range refmatch.Variants {
 				for _, scale := range []string{"prod", "discr"} {
